@@ -423,6 +423,15 @@ func (p *Proxy) roundTrip(req *http.Request) (*http.Response, error) {
 		return proxyutil.NewResponse(200, http.NoBody, req), nil
 	}
 
+	// An OPTIONS request in absolute-form with an empty path and no query asks about the server as
+	// a whole: the last proxy of the chain sends it on in asterisk-form (RFC 9112, 3.2.4).
+	if req.Method == http.MethodOptions && req.URL.Path == "" && req.URL.RawQuery == "" && !req.URL.ForceQuery && p.asksOrigin(req) {
+		r, u := *req, *req.URL
+		u.Path = "*"
+		r.URL = &u
+		req = &r
+	}
+
 	res, err := p.rt.RoundTrip(req)
 	if err != nil {
 		return nil, err
@@ -435,6 +444,19 @@ func (p *Proxy) roundTrip(req *http.Request) (*http.Response, error) {
 	}
 
 	return res, err
+}
+
+// asksOrigin reports whether the request line of req is read by the origin server,
+// not by an upstream HTTP proxy.
+func (p *Proxy) asksOrigin(req *http.Request) bool {
+	if req.URL.Scheme != "http" || p.ProxyURL == nil {
+		return true
+	}
+	u, err := p.ProxyURL(req)
+	if err != nil {
+		return false
+	}
+	return u == nil || (u.Scheme != "http" && u.Scheme != "https")
 }
 
 func (p *Proxy) errorResponse(req *http.Request, err error) *http.Response {
